@@ -609,6 +609,10 @@ func (app *EVMApp) queryContract(load []byte, height uint64) gtypes.Result {
 
 	bc := NewBlockChain(app.stateDb)
 
+	// a query must not have side effects outside its state copy
+	queryConfig := evmConfig
+	queryConfig.NoAdminOp = true
+
 	var vmEnv *vm.EVM
 
 	if height == 0 {
@@ -616,7 +620,7 @@ func (app *EVMApp) queryContract(load []byte, height uint64) gtypes.Result {
 		envCxt := core.NewEVMContext(txMsg, app.currentHeader, bc, nil)
 
 		app.stateMtx.Lock()
-		vmEnv = vm.NewEVM(envCxt, app.state.Copy(), app.chainConfig, evmConfig)
+		vmEnv = vm.NewEVM(envCxt, app.state.Copy(), app.chainConfig, queryConfig)
 		app.stateMtx.Unlock()
 	} else {
 		//appHash save in next block AppHash
@@ -637,7 +641,7 @@ func (app *EVMApp) queryContract(load []byte, height uint64) gtypes.Result {
 		if err != nil {
 			return gtypes.NewError(gtypes.CodeType_BaseInvalidInput, err.Error())
 		}
-		vmEnv = vm.NewEVM(envCxt, state, app.chainConfig, evmConfig)
+		vmEnv = vm.NewEVM(envCxt, state, app.chainConfig, queryConfig)
 	}
 
 	gpl := new(core.GasPool).AddGas(math.MaxUint64)
